@@ -230,6 +230,23 @@ def gen_case(rng, wild):
     return {"worker": worker, "ws": gen_ws(rng), "date": pick(rng, DATES), "reqs": reqs}
 
 
+def os_error_cases():
+    """Oracle only: the application fails behind the head with an OSError of its OWN (a missing file, a refused outbound connection):
+    like after any other failure, nothing but (a prefix of) its output may follow the head.  (Model/Response.v has one kind of
+    application failure; these are never sent to it.)"""
+    cs = []
+    ws = {"nr": 0, "max_requests": 1000, "alive": True, "keepalive": True, "keep_full": False, "sendfile": True}
+    for wk in ("sync", "gthread", "async"):
+        for cl in ([], [["Content-Length", "2000"]], [["Content-Length", "6"]]):
+            for k in (1, 2):
+                for exc in ("FileNotFoundError", "PermissionError", "TimeoutError", "ConnectionRefusedError"):
+                    for minor in (1, 0):
+                        app = {"acts": [["sr", "200 OK", [list(x) for x in cl], False]] + [["w", "abc"]] * k, "end": ["raise", exc], "split": 1}
+                        rq = {"major": 1, "minor": minor, "method": "GET", "conn": [], "te_gzip": False}
+                        cs.append({"worker": wk, "ws": dict(ws), "date": DATES[0], "reqs": [{"req": rq, "app": app, "wb": False}, sentinel()]})
+    return cs
+
+
 def fixed_cases():
     """Corpus: the combinations the property names, deterministic."""
     cs = []
@@ -786,6 +803,16 @@ def run(ctx):
             nfail += 1
             if len(ctx.violations) < 3:
                 report(ctx, case, fails)
+    nos = 0
+    for case in os_error_cases():
+        outs, info, fails = run_case(case)
+        ctx.count_case(("os-error", json.dumps(case, sort_keys=True)), True)
+        ctx.hist("application_failure", case["reqs"][0]["app"]["end"][1])
+        if fails:
+            nos += 1
+            if len(ctx.violations) < 3:
+                report(ctx, case, fails)
+    ctx.log("application failures of the OSError family behind the head (oracle only): %d failures" % nos)
     # the real Date value (util.http_date is not replaced here): IMF-fixdate, i.e. the model's date parameter
     # ranges over texts without CR / LF / edge blanks as the theorems assume; judged by the wire oracle only
     import re
